@@ -39,6 +39,24 @@ Theorem C07_run_for_total : forall k filtered p d0 xs script, exists o, run_for 
 Proof. exact run_for_total. Qed.
 Print Assumptions C07_run_for_total.
 
+(* with loop controls: continue / break at any position of any iteration — the visited items and
+   their answers are those of the documented loop up to and including the first iteration that
+   breaks, and the else branch still runs exactly when no item passed the filter (an iteration
+   that does not reach the end of the body counts) *)
+Theorem C07_else_iff_empty_ctl : forall k filtered p d0 xs script ctls o,
+  run_for_ctl k filtered p d0 xs script ctls = Some o ->
+  let src := if filtered then filter p xs else xs in
+  visited o = cut ctls (spec src d0 script) /\
+  map fst (visited o) = cut ctls src /\
+  (else_taken o = true <-> src = []).
+Proof. exact else_iff_empty_ctl. Qed.
+Print Assumptions C07_else_iff_empty_ctl.
+
+Theorem C07_run_for_ctl_total : forall k filtered p d0 xs script ctls,
+  exists o, run_for_ctl k filtered p d0 xs script ctls = Some o.
+Proof. exact run_for_ctl_total. Qed.
+Print Assumptions C07_run_for_ctl_total.
+
 (* recursive loops report the nesting level *)
 Theorem C07_recursive_depth : forall t d0, rec_loop d0 t = levels d0 t.
 Proof. exact recursive_depth. Qed.
